@@ -334,10 +334,13 @@ class Ctx:
         self.sqrule = {}
         self.hyps = []           # (name, Poly) meaning poly == 0
         self.signs = []          # Poly >= 0 facts (for the linear prover)
+        self.path_facts = []     # Poly >= 0 facts implied by path decisions
         self.inputs = {}         # name -> z3 const
         self.div_mode = div_mode
         self.abs_mode = 'fork'   # or 'atom': |x| as a defined atom (no fork)
         self.cdiv_mode = 'expand'  # or 'atom': 1/w as defined atoms
+        self.lazy_decide = False   # fork without feasibility queries
+        self.norm_positive = False  # np.linalg.norm(x) > 0 (genericity)
         self.assumptions = []    # textual, for evidence
         self.assumed = []        # z3 terms assumed (for smt2 export)
         self.obligations = []    # dicts
@@ -487,8 +490,26 @@ class Ctx:
         return z3.Sum(*terms)
 
     # -- decisions ----------------------------------------------------------------
-    def decide(self, term):
+    def decide(self, term, rel=None):
         """Truth value of a symbolic Bool on this path (forks)."""
+        b = self._decide(term)
+        if rel is not None:
+            self._record_fact(rel, b)
+        return b
+
+    def _record_fact(self, rel, b):
+        """polynomial sign facts implied by the decision (for LinProver)"""
+        op, d = rel
+        if op in ('__gt__', '__ge__'):
+            self.path_facts.append(d if b else -d)
+        elif op in ('__lt__', '__le__'):
+            self.path_facts.append(-d if b else d)
+        elif op == '__eq__' and b:
+            self.hyps.append(('path:eq', d))
+        elif op == '__ne__' and not b:
+            self.hyps.append(('path:eq', d))
+
+    def _decide(self, term):
         term = z3.simplify(term)
         if z3.is_true(term):
             return True
@@ -505,6 +526,14 @@ class Ctx:
             self.add(term if b else z3.Not(term))
             return b
         self.stats.decisions += 1
+        if self.lazy_decide:
+            # no feasibility query (heavy non-linear path conditions): both
+            # outcomes are explored; an infeasible path only adds obligations
+            self.stats.forks += 1
+            self.alts.append(self.trace + [False])
+            self.trace.append(True)
+            self.add(term)
+            return True
         # every solver-decided outcome is recorded (also forced ones) so that
         # a replayed prefix lines up with the decide() calls one to one
         r_t = self.check(term)
@@ -858,13 +887,14 @@ def _z3bool(c):
 
 # --------------------------------------------------------------------------
 class SBool:
-    __slots__ = ('t', )
+    __slots__ = ('t', 'rel')
 
-    def __init__(self, t):
+    def __init__(self, t, rel=None):
         self.t = t
+        self.rel = rel      # optional (op, Poly d): the comparison d <op> 0
 
     def __bool__(self):
-        return cur().decide(self.t)
+        return cur().decide(self.t, rel=self.rel)
 
     def __and__(self, o):
         return SBool(z3.And(self.t, _bt(o)))
@@ -1140,7 +1170,7 @@ class SReal:
         return SBool({
             '__lt__': z < 0, '__le__': z <= 0, '__gt__': z > 0,
             '__ge__': z >= 0, '__eq__': z == 0, '__ne__': z != 0
-        }[op])
+        }[op], rel=(op, d))
 
     def __lt__(self, o):
         return self._cmp(o, '__lt__')
